@@ -487,7 +487,10 @@ func (l *lsRun) run(ttl int64, next func(i int, m *refModel) (op, bool), val fun
 }
 
 func (l *lsRun) structure(f *replayfilter.ReplayFilter, i int, ttl int64) (sig, detail string) {
-	mapLen, fifoLen, bij, mono := f.VerifCheck()
+	mapLen, fifoLen, bij, mono, hooked := structCheck(f)
+	if !hooked {
+		return "", ""
+	}
 	l.st.verifChecks++
 	if int64(mapLen) > l.st.maxHeld {
 		l.st.maxHeld = int64(mapLen)
@@ -974,7 +977,10 @@ func (k *capRun) do(now int64, v int) *capViolation {
 }
 
 func (k *capRun) checkpoint() *capViolation {
-	mapLen, fifoLen, bij, mono := k.f.VerifCheck()
+	mapLen, fifoLen, bij, mono, hooked := structCheck(k.f)
+	if !hooked {
+		return nil
+	}
 	k.st.checkpoints++
 	if int64(mapLen) > k.st.maxSize {
 		k.st.maxSize = int64(mapLen)
@@ -1281,8 +1287,8 @@ func capacity(r *mon.Run) {
 		for rep := 0; rep < reps; rep++ {
 			si, rep := si, rep
 			r.Case(fmt.Sprintf("cap/%s/%d", names[si], rep), func(c *mon.Case) {
-				if replayfilter.VerifMaxSize != wantCap {
-					c.Violation("capacity/constant-differs-from-102400", fmt.Sprintf("maxFilterSize = %d", replayfilter.VerifMaxSize), nil)
+				if ms, hooked := maxSizeHook(); hooked && ms != wantCap {
+					c.Violation("capacity/constant-differs-from-102400", fmt.Sprintf("maxFilterSize = %d", ms), nil)
 					return
 				}
 				run := func(valSeed uint64) (*capRun, *capViolation) {
@@ -1518,8 +1524,8 @@ func concurrency(r *mon.Run) {
 					for g := range res {
 						ops = append(ops, res[g]...)
 					}
-					mapLen, fifoLen, bij, mono := f.VerifCheck()
-					if mapLen != fifoLen || !bij || mapLen > wantCap || !mono {
+					mapLen, fifoLen, bij, mono, hooked := structCheck(f)
+					if hooked && (mapLen != fifoLen || !bij || mapLen > wantCap || !mono) {
 						structBad = fmt.Sprintf("after phase %d: len(map)=%d fifo.Len()=%d bijection=%v time-ordered=%v", p, mapLen, fifoLen, bij, mono)
 					}
 				}
